@@ -487,3 +487,219 @@ Print Assumptions pml_behaviour_prefix.
 Theorem pml_behaviour_prefix_instance : forall fp ff, behaviour_prefix pml_repaired w_exit_interval 7 13 fp ff.
 Proof. exact prefix_instance. Qed.
 Print Assumptions pml_behaviour_prefix_instance.
+
+From V Require Import LegalHistBase LegalHistEntry LegalHistStep LegalHistRun LegalHistWf LegalHistFast CGenEquivHist CGenEquivHistRun PmlEquivPmlTok PmlEquivHistEntry PmlEquivHistStep PmlEquivHistMicro PmlEquivHistExamples PmlEquivHistInit PmlEquivHistRun PmlEquivHistBehaviour PmlEquivHistRunEx.
+
+
+(* ==== beyond the history-free core: <initial>, deep / multiple initial attributes, <history> (wf_histb) ========= *)
+
+(* U (every chart with pseudo-states that passes wf_histb, trans_lists (a theorem for documents: trans_lists_flatten)
+   and pml_deep_alone; the template with the six switches of ESTABLISH_ENTRY_SET off (entry_repaired; pml_repaired has
+   them off); every target set, configuration, exit set and recorded history that satisfy the loop hypotheses of
+   LegalHistFast.v -- they hold for the sets of a microstep on a legal state, see pml_microstep_equiv_history):
+   ESTABLISH_ENTRY_SET of the emitted model computes the entry set AND the transition set (default history
+   transitions, <initial> transitions) of Fast.fentry_set: recorded value against default transition, the ancestor
+   closure of a deep history's default targets, <initial> elements, deep / multiple completions; the model's state
+   only gets lines printed. *)
+Theorem pml_step_equiv_entry_set_history : forall pv c, WFH c -> entry_repaired pv ->
+  pml_deep_alone c = true -> trans_lists c = true ->
+  forall cfg exitset hist tg,
+  (forall g, In g tg -> 0 < g /\ g < nstates c) -> ssorted tg -> HistOK c hist ->
+  (forall i k1 k2, fs_type (st c i) = FCompound -> fs_parent (st c k1) = Some i -> fs_parent (st c k2) = Some i ->
+     In k1 (HE0 c tg) -> In k2 (HE0 c tg) -> k1 = k2) ->
+  forall Q : nat -> Prop,
+  (forall x, In x (HE0 c tg) -> Q x) ->
+  (forall j x, Q j -> fs_type (st c j) = FParallel -> fs_parent (st c x) = Some j -> Q x) ->
+  (forall j x, Q j -> fs_type (st c j) = FCompound -> (forall k, fs_parent (st c k) = Some j -> ~ surv cfg exitset k) ->
+     Anc (fun i => fs_parent (st c i)) j x -> Q x) ->
+  (forall j q x, Q j -> pseudoS c j = true -> fs_parent (st c j) = Some q -> Anc (fun i => fs_parent (st c i)) q x -> Q x) ->
+  (forall x, In x cfg -> x < nstates c) -> closedS c (fun x => In x cfg) -> (forall x, In x exitset -> In x cfg) ->
+  (forall x, In x exitset ->
+     exists d, In d (HE0 c tg) /\ pseudoS c d = false /\ Anc (fun i => fs_parent (st c i)) d x /\
+               forall y, In y cfg -> Anc (fun i => fs_parent (st c i)) d y -> In y exitset) ->
+  forall ts s,
+  fst (p_entry_set pv c cfg exitset hist tg ts s) = fentry_set c cfg exitset hist tg ts /\
+  only_outs s (snd (p_entry_set pv c cfg exitset hist tg ts s)).
+Proof. exact pentry_set_h. Qed.
+Print Assumptions pml_step_equiv_entry_set_history.
+
+(* where pml_deep_alone fails -- a history below the parent of a deep history that restores a recorded value -- the
+   emitted model puts the nested history pseudo-state into the entry set, FastMicroStep does not (its branch is dead).
+   The witness document is also outside wf_histb (its two histories record the same states); inside wf_histb no
+   witness is known and the condition was not shown to be implied: it is kept as a computable side condition. *)
+Theorem pml_step_equiv_entry_set_history_deep_alone_refuted :
+  pml_deep_alone (flatten false w_history_below_deep_history) = false /\
+  exists cfg exitset hist targets s,
+    fst (fst (p_entry_set pml_repaired (flatten false w_history_below_deep_history) cfg exitset hist targets [] s)) <>
+    fst (fentry_set (flatten false w_history_below_deep_history) cfg exitset hist targets []).
+Proof. exact deep_alone_needed. Qed.
+Print Assumptions pml_step_equiv_entry_set_history_deep_alone_refuted.
+
+(* U (every chart, every state i other than the root): the content of the default history transitions and of the
+   <initial> transitions in the transition set runs, in ENTER_STATES, after the <onentry> of the state i whose child
+   the pseudo-state is -- the same transitions in the same order with the same effect as in FastMicroStep (content
+   that cannot fail, no `chan` full). *)
+Theorem pml_step_equiv_content_history : forall pv c iq eq dom,
+  pv_in_reads_root pv = false -> content_ok dom c = true ->
+  forall i l, i <> 0 -> forall s x, Rx c s x -> store_has dom (x_store x) -> guard_ok s ->
+  let s' := fold_left (fun s j => if pseudo_guard c i s j then p_trans_body pv c iq eq s j else s) l s in
+  p_full s' = false ->
+  let x' := fold_left (fun x ti =>
+                 let t := tr c ti in
+                 if (ft_history t || ft_initial t) &&
+                    match fs_parent (st c (ft_source t)) with Some p => p =? i | None => false end then
+                   let y1 := emit (TTb (ft_vid t)) x in
+                   let y2 := if ft_has_body t then exec_block ex_fixed (inst_of c (p_cfg s)) (ft_body t) y1 else y1 in
+                   emit (TTe (ft_vid t)) y2
+                 else x) l x in
+  Rx c s' x' /\ store_has dom (x_store x') /\ pframe s' = pframe s.
+Proof. exact pseudo_fold_sim. Qed.
+Print Assumptions pml_step_equiv_content_history.
+
+(* U (wf_histb): EXIT_STATES, TAKE_TRANSITIONS and ENTER_STATES as pml_step_equiv_exit_take_enter, on charts with
+   pseudo-states: a <history> / <initial> member of the entry set is skipped by both sides, the transition set may
+   hold default and <initial> transitions. *)
+Theorem pml_step_equiv_exit_take_enter_history : forall pv c iq eq dom,
+  pv_in_reads_root pv = false -> wf_histb c = true -> content_ok dom c = true ->
+  (forall i, i <> 0 -> fs_data (st c i) = []) ->
+  forall ex ts es s x initd,
+  ssorted ex -> bounded (nstates c) ex -> ssorted ts -> bounded (ntrans c) ts -> ssorted es -> bounded (nstates c) es ->
+  ssorted (p_cfg s) -> bounded (nstates c) (p_cfg s) -> In 0 (p_cfg s) -> mem 0 ex = false ->
+  (forall i, In i ex -> In i (p_cfg s)) ->
+  Rx c s x -> store_has dom (x_store x) -> p_fin s = p_tlf s ->
+  let s3 := fold_left (p_exit_one pv c iq eq ex) (rev (seq 0 (pn c))) s in
+  let s4 := fold_left (p_take_one pv c iq eq ts) (seq 0 (pnt c)) s3 in
+  let s5 := fold_left (p_enter_one pv c iq eq es ts) (seq 0 (pn c)) s4 in
+  let cx1 := fold_left (exit_one ex_fixed c) (rev ex) (p_cfg s, x) in
+  let x2 := fold_left (take_one ex_fixed c (fst cx1)) ts (snd cx1) in
+  let a := fold_left (fenter_one ex_fixed c ts) es {| ea_cfg := fst cx1; ea_initd := initd; ea_tlf := p_tlf s; ea_x := x2 |} in
+  p_full s5 = false ->
+  p_cfg s5 = ea_cfg a /\ Rx c s5 (ea_x a) /\ store_has dom (x_store (ea_x a)) /\
+  p_tlf s5 = ea_tlf a /\ p_fin s5 = ea_tlf a /\ p_hist s5 = p_hist s /\ p_spont s5 = p_spont s.
+Proof. exact hphases_sim. Qed.
+Print Assumptions pml_step_equiv_exit_take_enter_history.
+
+(* U (every chart with pseudo-states: wf_histb and the computable chart conditions chart_ph = pml_deep_alone, trans_lists,
+   conflict_tableb (the static conflict table is the engine's matrix; a theorem on the core), ascending root
+   completion; content that cannot fail, early binding; every LEGAL configuration with LEGAL recorded history
+   (hst_ok = StOK of LegalHistRun.v and ascending sets; every state of a run: fast_run_legal_history), every event or
+   none, every datamodel state): ONE d_step of the emitted step process against ONE Fast.fselect_and_step on
+   corresponding states: same configuration, recorded history, datamodel, queues, top-level-final flag and visible
+   trace afterwards, and the next state is legal again -- for the repaired template (pv_repaired: In() read correctly,
+   conditions parenthesised, found-flag reset, the six entry-set switches off), guard literals deciding the name
+   matching, no `chan` full.  Not covered: late binding, failing content. *)
+Theorem pml_microstep_equiv_history : forall pv c iq eq dom,
+  pv_repaired pv -> wf_histb c = true -> chart_ph c = true -> content_ok dom c = true ->
+  (forall i, i <> 0 -> fs_data (st c i) = []) ->
+  forall s l x evf,
+  corr c dom s l x -> hst_ok c l -> l_init l = true ->
+  (forall i e, i < ntrans c -> evf = Some e -> ft_spontaneous (tr c i) = false ->
+     resolved_match (guard_literals pv c i) (ev_name e) = name_match_impl nm_fixed (ft_event (tr c i)) (ev_name e)) ->
+  let s' := fst (pml_dstep pv c iq eq (option_map ev_name evf) s) in
+  let r := fselect_and_step ex_fixed c l x evf in
+  p_full s' = false ->
+  corr c dom s' (fst (fst r)) (snd (fst r)) /\ hst_ok c (fst (fst r)) /\
+  (if nonempty (k_trans (selected pv c (l_cfg l) (option_map ev_name evf) (x_store x)))
+   then p_spont s' = true /\ l_spont (fst (fst r)) = true
+   else p_spont s' = false /\ l_spont (fst (fst r)) = match evf with Some _ => true | None => false end).
+Proof. exact pml_microstep_hist_lemma. Qed.
+Print Assumptions pml_microstep_equiv_history.
+
+(* the premises are satisfiable by a document with an <initial> element with content, a shallow and a deep <history>
+   (w_hist_doc): after 8 iterations / steps both sides are in s6 with recorded history {s3, s5}; the event "d" targets
+   the deep history of s3, both sides restore s3 and s5 *)
+Theorem pml_microstep_equiv_history_nonvacuous :
+  wf_histb hx_chart = true /\ chart_ph hx_chart = true /\ content_ok [] hx_chart = true /\
+  corr hx_chart [] hx_pstate hx_lstate hx_xstate /\ hst_ok hx_chart hx_lstate /\ l_init hx_lstate = true /\
+  p_full (fst (pml_dstep pml_repaired hx_chart 7 13 (option_map ev_name (Some hx_event)) hx_pstate)) = false /\
+  l_cfg hx_lstate = [0; 9] /\ l_hist hx_lstate = [5; 8] /\
+  l_cfg (fst (fst (fselect_and_step ex_fixed hx_chart hx_lstate hx_xstate (Some hx_event)))) = [0; 1; 5; 8].
+Proof.
+  pose proof hist_microstep_hypotheses_satisfiable as M. cbv zeta in M. destruct M as (M1 & _ & M3 & M4 & _ & M6).
+  split; [exact hx_wf|]. split; [exact hx_chart_ph|]. split; [exact hx_content|]. split; [exact hx_corr|].
+  split; [exact hx_ok|]. split; [exact hx_init|]. split; [exact M1|]. split; [exact M3|]. split; [exact M4|exact M6].
+Qed.
+Print Assumptions pml_microstep_equiv_history_nonvacuous.
+
+(* U (wf_histb, root compound, chart_ph0 = chart_ph and trans_kindsb (the transitions flagged HISTORY / INITIAL are
+   those of pseudo-states; flatten sets the flags so), content that cannot fail, early binding, <data> expressions
+   over earlier ids): the FIRST iteration of the emitted model against the first step of FastMicroStep, on charts
+   with pseudo-states: the root's completion may be deep, multiple or an <initial> element, whose transition and
+   content enter the transition set and run after the <onentry> of the parent. *)
+Theorem pml_initial_step_equiv_history : forall pv c iq eq,
+  pv_repaired pv -> wf_histb c = true -> fs_type (st c 0) = FCompound -> chart_ph0 c = true ->
+  content_ok (chart_dom c) c = true -> (forall i, i <> 0 -> fs_data (st c i) = []) ->
+  data_okb [] (fs_data (st c 0)) = true ->
+  let s' := fst (pml_iter pv c iq eq (p_init c)) in
+  let r := fast_step ex_fixed c l_pristine x_init in
+  p_full s' = false ->
+  corr c (chart_dom c) s' (fst (fst r)) (snd (fst r)) /\ hst_ok c (fst (fst r)) /\
+  p_spont s' = true /\ l_spont (fst (fst r)) = true /\ l_init (fst (fst r)) = true /\
+  l_fin (fst (fst r)) = false /\ l_cancelled (fst (fst r)) = false /\ snd r = RC_MICROSTEPPED.
+Proof. exact pml_initial_step_hist_lemma. Qed.
+Print Assumptions pml_initial_step_equiv_history.
+
+(* U, partial as pml_run_equiv_partial (state correspondence at the end of every observation; the framing tokens are
+   in pml_behaviour_preserved_history): whole runs of DOCUMENTS with <initial> elements, deep / multiple initial
+   attributes and <history>. *)
+Theorem pml_run_equiv_history_partial : forall pv t iq eq (P : bytes -> Prop),
+  let c := flatten false t in
+  pv_repaired pv -> wf_histb c = true -> fs_type (st c 0) = FCompound -> chart_ph0 c = true ->
+  content_ok (chart_dom c) c = true -> data_okb [] (fs_data (st c 0)) = true ->
+  (forall e, P e -> e <> []) -> chart_names P c ->
+  (forall j, (is_par (ptype c j) = true \/
+              exists i, is_fin (ptype c i) = true /\ fs_parent (st c i) = Some j /\ mem 1 (fs_children (st c j)) = false) ->
+             P (done_name c j)) ->
+  (forall i name, P name -> i < ntrans c -> ft_spontaneous (tr c i) = false ->
+     resolved_match (guard_literals pv c i) name = name_match_impl nm_fixed (ft_event (tr c i)) name) ->
+  forall fuel s' r,
+  pml_loop pv c iq eq (S fuel) (p_init c) = (s', r) -> p_full s' = false -> r <> PFull ->
+  exists m l' x', run_loop c lstate (fast_step ex_fixed c) l_cfg m l_pristine x_init [] = (l', x') /\ final_rel c r s' l' x'.
+Proof. exact pml_run_hist_tree_lemma. Qed.
+Print Assumptions pml_run_equiv_history_partial.
+
+(* U (every document with <initial> elements, deep / multiple initial attributes, shallow and deep <history> that
+   passes wf_histb and chart_ph0, has a compound root, at least one transition, early binding, content that cannot
+   fail; the repaired template; EVERY pair of bounds): the property itself -- behaviour_preserved, provided no `chan`
+   of the emitted model was full at the end, and behaviour_prefix.  Side conditions beyond the core theorem
+   (pml_behaviour_preserved): pml_deep_alone (refuted where it fails: ..._deep_alone_refuted), conflict_tableb
+   (checked per chart; a theorem on the core), trans_lists (a theorem for documents), trans_kindsb, ascending root
+   completion.  Not covered: late binding, failing content, events from outside. *)
+Theorem pml_behaviour_preserved_history : forall pv t iq eq (P : bytes -> Prop),
+  let c := flatten false t in
+  pv_repaired pv -> wf_histb c = true -> fs_type (st c 0) = FCompound -> chart_ph0 c = true ->
+  content_ok (chart_dom c) c = true -> data_okb [] (fs_data (st c 0)) = true ->
+  (forall e, P e -> e <> []) -> chart_names P c ->
+  (forall j, (is_par (ptype c j) = true \/
+              exists i, is_fin (ptype c i) = true /\ fs_parent (st c i) = Some j /\ mem 1 (fs_children (st c j)) = false) ->
+             P (done_name c j)) ->
+  (forall i name, P name -> i < ntrans c -> ft_spontaneous (tr c i) = false ->
+     resolved_match (guard_literals pv c i) name = name_match_impl nm_fixed (ft_event (tr c i)) name) ->
+  0 < ntrans c ->
+  forall fp ff, p_full (fst (pml_loop pv c iq eq fp (p_init c))) = false -> behaviour_preserved pv t iq eq fp ff.
+Proof. exact pml_behaviour_preserved_hist_lemma. Qed.
+Print Assumptions pml_behaviour_preserved_history.
+
+Theorem pml_behaviour_prefix_history : forall pv t iq eq (P : bytes -> Prop),
+  let c := flatten false t in
+  pv_repaired pv -> wf_histb c = true -> fs_type (st c 0) = FCompound -> chart_ph0 c = true ->
+  content_ok (chart_dom c) c = true -> data_okb [] (fs_data (st c 0)) = true ->
+  (forall e, P e -> e <> []) -> chart_names P c ->
+  (forall j, (is_par (ptype c j) = true \/
+              exists i, is_fin (ptype c i) = true /\ fs_parent (st c i) = Some j /\ mem 1 (fs_children (st c j)) = false) ->
+             P (done_name c j)) ->
+  (forall i name, P name -> i < ntrans c -> ft_spontaneous (tr c i) = false ->
+     resolved_match (guard_literals pv c i) name = name_match_impl nm_fixed (ft_event (tr c i)) name) ->
+  0 < ntrans c ->
+  forall fp ff, behaviour_prefix pv t iq eq fp ff.
+Proof. exact pml_behaviour_prefix_hist_lemma. Qed.
+Print Assumptions pml_behaviour_prefix_history.
+
+(* non-vacuity: w_hist_doc -- an <initial> element with content, a shallow and a deep <history>; the run visits s2, s3/s4,
+   s5, s6 and returns through the deep history of s3 -- observed completely, against EVERY bound on the interpreter *)
+Theorem pml_behaviour_preserved_history_instance : forall ff, behaviour_preserved pml_repaired w_hist_doc 7 13 30 ff.
+Proof. exact hist_behaviour_instance. Qed.
+Print Assumptions pml_behaviour_preserved_history_instance.
+Theorem pml_behaviour_prefix_history_instance : forall fp ff, behaviour_prefix pml_repaired w_hist_doc 7 13 fp ff.
+Proof. exact hist_prefix_instance. Qed.
+Print Assumptions pml_behaviour_prefix_history_instance.
